@@ -126,6 +126,16 @@ class SimSource(object):
         from mapproxy.source import SourceError
         sh = self.shared
         sched = self.world.sched
+        if sh.get('holes'):
+            # the source has nothing for these tiles (they lie outside its coverage): tile-by-tile queries for them give no
+            # image at all, such a tile can never be cached
+            for hc in sh['holes']:
+                if covers(query.bbox, tuple(hc)) and tuple(query.size) == (TS, TS):
+                    from mapproxy.layer import BlankImage
+                    sh.setdefault('blank_queries', []).append(tuple(hc))
+                    if sched is not None:
+                        sched.yield_point('upstream-blank', tuple(hc))
+                    raise BlankImage()
         sh['gen'] += 1
         gen = sh['gen']
         me = sched._me() if sched is not None else None
